@@ -399,7 +399,12 @@ struct Transport::Impl
             }
             bufIt->second->data.insert(bufIt->second->data.end(), data.data(),
                                        data.data() + data.size());
-            bufIt->second->hasData = true; // INV-1: hasData == !data.empty()
+            // INV-1: hasData mirrors the BUFFER, not the arriving chunk. A
+            // zero-length chunk (UdpEngine reports an empty datagram as an empty
+            // view) appended to an empty buffer must not mark it readable: the
+            // woken waiter would find nothing to drain and fall through to the
+            // ShuttingDown return although the session is alive.
+            bufIt->second->hasData = !bufIt->second->data.empty();
             bufIt->second->cv.notify_one();
           }
           return;
